@@ -75,4 +75,11 @@ def Served {σ : Type} (res : Result σ) : Prop := res.trace ≠ []
 /-- no handler ran and the server state is what it was before the request -/
 def Untouched {σ : Type} (res : Result σ) (s : σ) : Prop := res.trace = [] ∧ res.state = s
 
+instance (a : Addr) : Decidable (SpecificAddress a) := by unfold SpecificAddress; infer_instance
+instance (r : Req) : Decidable (OriginMissing r) := by unfold OriginMissing; infer_instance
+instance (r : Req) : Decidable (IsWebsocketUpgrade r) := by unfold IsWebsocketUpgrade; infer_instance
+instance {σ : Type} (res : Result σ) : Decidable (Served res) := by unfold Served; infer_instance
+instance (acl : List Access) (chains : List (List Nat)) : Decidable (KeyListed acl chains) := by
+  unfold KeyListed; infer_instance
+
 end CaddyModel.C13
